@@ -3,3 +3,6 @@
 package vlib
 
 const faketimeBuild = false
+
+// Faketime reports whether the binary runs on the virtual clock.
+const Faketime = false
